@@ -67,6 +67,10 @@ _HEAT = {
 
 SPECS = [
     dict(lean="tankEnterFill", file="controller/tank.py", cls="Tank", method="on_enter_fill", params="(c : Poupool.Tank.Cfg) (h : Int)", atoms=_tank()),
+    dict(lean="tankHeight", file="controller/tank.py", cls="Tank", method="__get_tank_height", returns="value", params="",
+         atoms={"self.__devices.get_sensor('tank').value": ("int", "sensor value")}),
+    dict(lean="heatingReadTemperature", file="controller/heating.py", cls="Heating", method="__read_temperature", returns="value", params="", signature=True,
+         atoms={"self.__temperature.get_temperature(key).get()": ("opt", "reader value of key")}),
     dict(lean="tankPollFill", file="controller/tank.py", cls="Tank", method="do_repeat_fill", params="(c : Poupool.Tank.Cfg) (h tis : Int)", atoms=_tank()),
     dict(lean="tankPollLow", file="controller/tank.py", cls="Tank", method="do_repeat_low", params="(c : Poupool.Tank.Cfg) (h tis : Int)", atoms=_tank()),
     dict(lean="tankPollNormal", file="controller/tank.py", cls="Tank", method="do_repeat_normal", params="(c : Poupool.Tank.Cfg) (h : Int)", atoms=_tank()),
@@ -246,6 +250,7 @@ class Ctx:
         self.atoms = spec["atoms"]
         self.user_effects = [(re.compile("^" + k + "$"), v) for k, v in spec.get("effects", {}).items()]
         self.cls = spec["cls"]
+        self.helpers = {}
 
     # ---------------------------------------------------------------- constants (for delays)
     def const_eval(self, node) -> Fraction:
@@ -497,13 +502,25 @@ class Exec:
 
     def run(self, stmts, env):
         if not stmts:
+            if env.get("k") is not None:  # end of an inlined private helper: back in the caller
+                return env["k"](env)
             return Leaf(env["effects"])
         st, rest = stmts[0], stmts[1:]
         try:
+            if isinstance(st, ast.Return) and env.get("k") is not None:
+                if st.value is not None:  # the value of an inlined statement-level call is dropped; its evaluation is not
+                    raise Opaque(unp(st))
+                return env["k"](env)
             if isinstance(st, ast.Return):
                 if st.value is not None:
                     if not self.ctx.spec.get("returns"):
                         return Leaf(env["effects"] + [f"opaque:{unp(st)}"])
+                    if self.ctx.spec.get("returns") == "value":
+                        # the helper hands a value on: which atom it is (anything computed on the way is visible in the name)
+                        b = self.lookup(st.value, env)
+                        if b is None:
+                            return Leaf(env["effects"] + [f"opaque:{unp(st)}"])
+                        return Leaf(env["effects"] + [f"return {b[1]}"])
                     return self.branch(st.value, env, lambda e: Leaf(e["effects"] + ["return True"]), lambda e: Leaf(e["effects"] + ["return False"]))
                 return Leaf(env["effects"])
             if isinstance(st, ast.Raise):
@@ -543,6 +560,17 @@ class Exec:
                 if isinstance(st.value, ast.Constant):  # docstring
                     return self.run(rest, env)
                 eff = self.effect_of_call(st.value, env)
+                if eff is not None and eff.startswith("opaque:"):
+                    # a call of a private helper of the same class without arguments: executed in place
+                    m = re.match(r"^self\.(__\w+)\(\)$", unp(st.value))
+                    helper = self.ctx.helpers.get(m.group(1)) if m else None
+                    if helper is not None and env.get("depth", 0) < 3 and not helper.args.args[1:]:
+                        caller = env
+
+                        def back(e, caller=caller):
+                            return self.run(rest, dict(e, locals=caller["locals"], k=caller.get("k"), depth=caller.get("depth", 0)))
+
+                        return self.run(list(helper.body), dict(env, locals={}, k=back, depth=env.get("depth", 0) + 1))
                 e = env if eff is None else dict(env, effects=env["effects"] + [eff])
                 return self.run(rest, e)
             if isinstance(st, ast.Pass):
@@ -622,8 +650,15 @@ def translate_all():
             tree = Leaf([f"opaque:method {spec['cls']}.{spec['method']} not found"])
         else:
             ctx = Ctx(spec, t, consts)
+            for c in ast.walk(t):
+                if isinstance(c, ast.ClassDef) and c.name == spec["cls"]:
+                    ren = resolve_roles(c, spec["cls"])
+                    import copy
+                    ctx.helpers = {ren.get(f.name, f.name): (_Canon(ren).visit(copy.deepcopy(f)) if ren else f) for f in c.body
+                                   if isinstance(f, ast.FunctionDef) and f.name.startswith("__") and not f.name.endswith("__")}
             ex = Exec(ctx)
-            tree = ex.run(list(fn.body), {"locals": {}, "opt": {}, "effects": []})
+            eff0 = [f"signature {ast.unparse(fn.args)}"] if spec.get("signature") else []
+            tree = ex.run(list(fn.body), {"locals": {}, "opt": {}, "effects": eff0})
         lv = list(leaves(tree))
         opaque = sorted({e for l in lv for e in l.effects if e.startswith("opaque:")})
         report[name] = {"method": f"{spec['cls']}.{spec['method']}", "paths": len(lv), "opaque": opaque,
